@@ -221,6 +221,40 @@ fn recipients_only(rep: &mut Report) {
     }
 }
 
+/// "it can be opened with the private key of any one recipient" for larger recipient sets (headers of several KB):
+/// first, middle and last recipient each alone; a key just outside the set is refused.
+fn many_recipients(rep: &mut Report) {
+    for layers in [L4::Encrypt, L4::Both] {
+        for n in [9usize, 21, 64, 130] {
+            let cfg = Cfg { layers, level: 5, recipients: n };
+            let p = Program::new(vec![Op::Add(0, CHUNK + 3), Op::Add(1, 5)], Entropy::Noise);
+            let Ok(Ok((a, _))) = guard(|| prog::build(&p, &cfg)) else {
+                rep.violate(Violation { sig: json!({"kind": "cannot_create_archive", "recipients": n}), detail: format!("an archive for {n} recipients cannot be written"), replay: json!({"recipients": n, "layers": layers.tag()}), weight: n as u64 });
+                continue;
+            };
+            for k in [0usize, n / 2, n - 1, n + 1] {
+                rep.evaluations += 1;
+                rep.transitions += 2;
+                let h = fnv(format!("many{layers:?}{n}{k}").as_bytes());
+                rep.state(h);
+                rep.nontrivial(h);
+                let should_open = k < n;
+                let readable = guard(|| prog::read_all(&a, &[k]).map(|f| prog::diff_model(&p.model(), &f).is_none()).unwrap_or(false)).unwrap_or(false);
+                let repairable = matches!(crate::sweep::repair_eval(&a, &[k], false), crate::sweep::RepairEval::Done(r) if r.end_reached);
+                rep.class(&format!("recipients={n}/should_open={should_open}"));
+                if readable != should_open || repairable != should_open {
+                    rep.violate(Violation {
+                        sig: json!({"kind": if should_open { "recipient_cannot_open" } else { "non_recipient_can_open" }, "layers": layers.tag()}),
+                        detail: format!("{n} recipients, key {k} alone: normal reader reads everything: {readable}, repair reaches the end: {repairable}"),
+                        replay: json!({"recipients": n, "layers": layers.tag(), "candidate_keys": [k]}),
+                        weight: n as u64,
+                    });
+                }
+            }
+        }
+    }
+}
+
 /// The same "any position among other candidate keys" clause through the command-line tool, which
 /// loads the candidate key files itself (DER and PEM).
 fn cli_recipients(rep: &mut Report) {
@@ -321,6 +355,7 @@ pub fn run(started: Instant) -> i32 {
     let r2 = infra::par_explore(&cases, |(p, c), rep| no_plaintext(p, c, rep));
     rep.merge(r2);
     recipients_only(&mut rep);
+    many_recipients(&mut rep);
     cli_recipients(&mut rep);
     rep.sample(json!({"no_plaintext_case": cases[cases.len() / 2].0.short(), "names": names}));
     rep.sample(json!({"recipients_case": {"recipients": 2, "candidate_keys": [7, 1, 8], "expected": "opens"}}));
